@@ -26,6 +26,8 @@ impl OperationControl for Eol {
         matcher: &ReMatcher,
         position: usize,
     ) -> Box<dyn Iterator<Item = usize>> {
+        #[cfg(feature = "verif-hooks")]
+        crate::verif::step(crate::verif::site::OP_EOL);
         let search = &matcher.search;
 
         if matcher.program.flags.is_multi_line() {
